@@ -18,11 +18,17 @@ CHECKS = {
    design_ref="DESIGN.md section 4 C33",
    note="Trusted: the narrow translator (fails closed on any source shape it does not recognise), z3; md5 collision resistance and absence of digest fixed points are assumptions; lengths are the listed ones; one known finding (stale signature before the token) is excluded by key and everything outside it is still decided.",
    technique="SMT (bit-vector) encoding regenerated from source, uninterpreted hash, counterexamples replayed natively"),
+
+ "C12": dict(engine="S", category="other",
+   text="SMT decision over an encoding regenerated on every run from the alias templates of the compiler (to_alias_str_chunk, get_aliased_mutation_field_name) and of the runtime (cache.ts getArgumentValueChunk / getNetworkResponseKey): injectivity of the response key, legality as a GraphQL name, and compiler/runtime agreement, for every argument shape within the bound with all names, integers, booleans and string characters symbolic. Four known-finding classes (admitted in source comments) are each witnessed and replayed against the real Rust crates and the real TypeScript function text in node, then excluded; every residual query must be unsat on cvc5, z3 5.1 and z3 4.8.12.",
+   design_ref="DESIGN.md section 4 C12",
+   note="Trusted: the narrow template extractor (fails closed), the composition lemmas stated in the evidence (keys are concatenations of the same pieces on both sides), solvers; bounds: <= 1 argument per selection in the injectivity pairs (quick), names <= 4 chars, strings <= 2 characters, objects <= 1 entry; Float/List values, integers beyond 2^53 and string escaping in the artifact are outside the claim.",
+   technique="SMT (strings) encoding regenerated from Rust and TypeScript source, per-shape queries, solver portfolio, native replay on both implementations"),
 }
 
 NA_COMMON = "whole-compiler behaviour: needs IsographDatabase (#[memo] over TypeId hashing), std HashMap, file system and format!-built text, none of which Kani/CBMC can decide here (DESIGN.md section 2, probes P2/P4/P5/P8/P9)"
 NOT_APPLICABLE = {p: "not yet built in this revision (see DESIGN.md)" for p in
-  ["C01","C02","C03","C04","C05","C07","C12","C16","C24","C28","C31","C32"]}
+  ["C01","C02","C03","C04","C05","C07","C16","C24","C28","C31","C32"]}
 NOT_APPLICABLE.update({
  "C08": NA_COMMON,
  "C09": "observable is the JS-evaluated artifact text of a whole compile validated by a GraphQL implementation; printers are format!-based and need a real compile's merged selection map",
